@@ -114,8 +114,8 @@ def _module_definition(globs: dict, name: str) -> 'ast.expr | None':
 
 
 LEAN_T = {'int': 'Int', 'bool': 'Bool', 'err': 'Option (Int × Int)'}  # err: a NotifyError(code, subcode, …) or None
-NONE_VAL = {'bool': 'false', 'int': '0', 'none': '()', 'int*int': '(0, 0)'}
-RET_T = {'bool': 'Bool', 'int': 'Int', 'none': 'Unit', 'int*int': '(Int × Int)'}
+NONE_VAL = {'bool': 'false', 'int': '0', 'none': '()', 'int*int': '(0, 0)', 'refusal': '(none : Option Nat)'}
+RET_T = {'bool': 'Bool', 'int': 'Int', 'none': 'Unit', 'int*int': '(Int × Int)', 'refusal': 'Option Nat'}  # refusal: None = accepted, a message = refused (`some k`: the k-th message of the source)
 
 
 class _Tr:
@@ -500,6 +500,16 @@ class _Tr:
                 if ta != 'int' or tb != 'int':
                     raise Unsupported(f'{self.fname}: returns ({ta}, {tb}), declared int*int')
                 return pad + self.ret(f'({a}, {b})')
+            if sp.ret == 'refusal':
+                # `return None` accepts; `return '<message>'` / `return f'…'` refuses: which message, by its position
+                if isinstance(s.value, ast.Constant) and s.value.value is None:
+                    return pad + self.ret('(none : Option Nat)')
+                if isinstance(s.value, ast.JoinedStr) or (isinstance(s.value, ast.Constant) and isinstance(s.value.value, str)):
+                    # numbered by source position (a statement behind an `if` without `else` is translated once per
+                    # branch that reaches it: every copy carries the number of the one statement)
+                    k = self.refusal_lines.index(s.lineno) + 1
+                    return pad + self.ret(f'(some {k} : Option Nat)')
+                raise Unsupported(f'{self.fname}: returns neither None nor a message: {ast.unparse(s.value)[:60]}')
             v, t = self.expr(s.value, env)
             if sp.ret == 'none':
                 raise Unsupported(f'{self.fname}: returns a value but is declared to return None')
@@ -825,6 +835,7 @@ def translate(fn: Any, spec: Spec, lean_name: str | None = None, nested: str | N
                 local_defs.setdefault(n.name, n)
     fdef.body = [n for n in fdef.body if not isinstance(n, ast.FunctionDef)]
     tr = _Tr(spec, fdef.name, getattr(fn, '__globals__', None), owner, local_defs)
+    tr.refusal_lines = sorted({n.lineno for n in ast.walk(fdef) if isinstance(n, ast.Return) and (isinstance(n.value, ast.JoinedStr) or (isinstance(n.value, ast.Constant) and isinstance(n.value.value, str)))})
     left_out: list[str] = []
     if spec.slice_fields:
         full = list(fdef.body)
